@@ -40,6 +40,8 @@ type HarnessInfo struct {
 	PO       bool
 	MaxSpawn int
 	POTimeout int
+	POLoop   int
+	ReplayInterp bool
 }
 
 type Loaded struct {
@@ -207,6 +209,10 @@ func Load(groups []string) (*Loaded, error) {
 					h.Bounds = strings.TrimSpace(m[2])
 				case "po":
 					h.PO = true
+				case "replay":
+					h.ReplayInterp = strings.TrimSpace(m[2]) == "interp"
+				case "poloop":
+					h.POLoop, _ = strconv.Atoi(strings.TrimSpace(m[2]))
 				case "maxspawn":
 					h.MaxSpawn, _ = strconv.Atoi(strings.TrimSpace(m[2]))
 				case "potimeout":
